@@ -149,15 +149,20 @@ def firstSome {α β} (f : α → Option β) : List α → Option β
     | some b => some b
     | none => firstSome f as
 
-/-- `Presentation::verify`: signature statements first, then predicates in schema order, then the
-challenge comparison, then every verifier -/
-def verify {F : Type} [DecidableEq F] (enc : ClaimData → F) (stmts : List Stmt) (p : Pres F) (ck : Checks) : Verdict :=
+/-- everything `Presentation::verify` decides before the challenge is compared: every proof is stored
+under the id it carries (repair of the proof-id finding), then signature statements, then predicates
+in schema order -/
+def planStage {F : Type} [DecidableEq F] (enc : ClaimData → F) (stmts : List Stmt) (p : Pres F) : Option String :=
   let sigs := stmts.filterMap fun | .sig s => some s | _ => none
   let preds := stmts.filterMap fun | .pred q => some q | _ => none
-  match firstSome (planSig enc p) sigs with
-  | some why => .errPlan why
-  | none =>
-  match firstSome (planPred stmts p) preds with
+  if p.proofs.any (fun e => e.2.innerId != e.1) then some "proof stored under another id"
+  else match firstSome (planSig enc p) sigs with
+    | some why => some why
+    | none => firstSome (planPred stmts p) preds
+
+/-- `Presentation::verify`: the plan stage, then the challenge comparison, then every verifier -/
+def verify {F : Type} [DecidableEq F] (enc : ClaimData → F) (stmts : List Stmt) (p : Pres F) (ck : Checks) : Verdict :=
+  match planStage enc stmts p with
   | some why => .errPlan why
   | none =>
     if !ck.challengeOk then .errChallenge
